@@ -7,6 +7,7 @@ const char* FAULT_NAME[] = { "none", "corrupt1", "corruptN", "point_subst", "tru
 void ch_init(channel* ch, const channel* prev)
 {
 	memset(ch, 0, sizeof(*ch));
+	memset(ch->point_off, 0xFF, sizeof(ch->point_off));
 	ch->prev = prev;
 }
 
@@ -100,17 +101,46 @@ err_t ch_write(size_t* written, const void* buf, size_t count, void* file)
 	}
 	case F_POINT:
 	{
-		/* replace the first point-sized field by a structured bad point */
+		/* replace the curve point carried by this message by a structured bad
+		   (or merely different) point */
 		size_t fl = ch->field_len;
-		if (fl && count >= 2 * fl)
+		int po = ord < 3 ? ch->point_off[dir][ord] : -1;
+		if (fl && po >= 0 && count >= (size_t)po + 2 * fl)
 		{
-			switch (f->param % 5)
+			octet* pt = tmp + po;
+			switch (f->param % 9)
 			{
-			case 0: memset(tmp, 0, 2 * fl); break;                       /* (0,0) */
-			case 1: memset(tmp, 0xFF, fl); break;                        /* x >= p */
-			case 2: if (ch->curve_p) memcpy(tmp, ch->curve_p, fl); break; /* x = p */
-			case 3: tmp[fl] ^= 1; break;                                 /* y off by one: off the curve */
-			case 4: if (ch->own_point[ep->side ^ 1]) memcpy(tmp, ch->own_point[ep->side ^ 1], 2 * fl); break; /* the receiver's own long-term point */
+			case 0: memset(pt, 0, 2 * fl); break;                        /* (0,0) */
+			case 1: memset(pt, 0xFF, fl); break;                         /* x >= p */
+			case 2: if (ch->curve_p) memcpy(pt, ch->curve_p, fl); break; /* x = p */
+			case 3: pt[fl] ^= 1; break;                                  /* y off by one: off the curve */
+			case 4: if (ch->own_point[ep->side ^ 1]) memcpy(pt, ch->own_point[ep->side ^ 1], 2 * fl); break; /* the receiver's own long-term point */
+			case 5: /* the negated point (x, p - y): on the curve, different */
+				if (ch->curve_p && !ch->xonly)
+				{
+					size_t i;
+					unsigned borrow = 0;
+					for (i = 0; i < fl; ++i)
+					{
+						unsigned d = (unsigned)ch->curve_p[i] - pt[fl + i] - borrow;
+						pt[fl + i] = (octet)d, borrow = (d >> 8) & 1;
+					}
+				}
+				break;
+			case 6: /* the base point G = (0, yG) */
+				if (ch->curve_yG)
+					memset(pt, 0, fl), memcpy(pt + fl, ch->curve_yG, fl);
+				break;
+			case 7: /* reflection: the receiver's own first ephemeral point */
+				if (ch->loglen[dir ^ 1][0] >= 2 * fl && ch->point_off[dir ^ 1][0] >= 0)
+					memcpy(pt, ch->log[dir ^ 1][0] + ch->point_off[dir ^ 1][0], 2 * fl);
+				break;
+			case 8: /* coordinates swapped */
+			{
+				octet t[64];
+				memcpy(t, pt, fl), memcpy(pt, pt + fl, fl), memcpy(pt + fl, t, fl);
+				break;
+			}
 			}
 			enqueue(q, tmp, len, count, memcmp(tmp, buf, count) != 0, 0);
 		}
